@@ -172,7 +172,7 @@ func (p *Packer) Pack(src string, w io.Writer) (*Meta, error) {
 	}
 
 	// Walk the tree of files.
-	err = filepath.Walk(src, p.packWalkFn(src, src, src, tarW, meta, ignoreRules))
+	err = filepath.Walk(src, p.packWalkFn(src, src, src, tarW, meta, ignoreRules, nil))
 	if err != nil {
 		return nil, err
 	}
@@ -190,7 +190,7 @@ func (p *Packer) Pack(src string, w io.Writer) (*Meta, error) {
 	return meta, nil
 }
 
-func (p *Packer) packWalkFn(root, src, dst string, tarW *tar.Writer, meta *Meta, ignoreRules *ignorefiles.Ruleset) filepath.WalkFunc {
+func (p *Packer) packWalkFn(root, src, dst string, tarW *tar.Writer, meta *Meta, ignoreRules *ignorefiles.Ruleset, derefDirs []string) filepath.WalkFunc {
 	return func(path string, info os.FileInfo, err error) error {
 		if err != nil {
 			return err
@@ -290,7 +290,7 @@ func (p *Packer) packWalkFn(root, src, dst string, tarW *tar.Writer, meta *Meta,
 			}
 
 			// Attempt to follow the external target so we can copy its contents
-			resolved, err := p.resolveExternalLink(root, path)
+			resolved, err := p.resolveExternalLink(root, path, 0)
 			if err != nil {
 				return err
 			}
@@ -302,7 +302,17 @@ func (p *Packer) packWalkFn(root, src, dst string, tarW *tar.Writer, meta *Meta,
 				// has in the archive, which differs from its real path when the
 				// link itself lives inside another dereferenced directory.
 				linkPos := strings.Replace(path, src, dst, 1)
-				return filepath.Walk(resolved.absTarget, p.packWalkFn(root, resolved.absTarget, linkPos, tarW, meta, ignoreRules))
+
+				// Refuse to descend into a directory that is already being walked
+				// (or into a parent of one): the recursion would never end.
+				walking := append([]string{root, src}, derefDirs...)
+				targetDir := filepath.Clean(resolved.absTarget)
+				for _, dir := range walking {
+					if dir == targetDir || strings.HasPrefix(dir, strings.TrimSuffix(targetDir, string(filepath.Separator))+string(filepath.Separator)) {
+						return fmt.Errorf("symlink %q leads back into directory %q, which is already being packed", path, targetDir)
+					}
+				}
+				return filepath.Walk(resolved.absTarget, p.packWalkFn(root, resolved.absTarget, linkPos, tarW, meta, ignoreRules, walking))
 			}
 
 			// Dereference this symlink by updating the header with the target file
@@ -351,7 +361,12 @@ func (p *Packer) packWalkFn(root, src, dst string, tarW *tar.Writer, meta *Meta,
 // resolveExternalSymlink attempts to recursively follow target paths if we
 // encounter a symbolic link chain. It returns path information about the final
 // target pointing to a regular file or directory.
-func (p *Packer) resolveExternalLink(root string, path string) (*externalSymlink, error) {
+func (p *Packer) resolveExternalLink(root string, path string, hops int) (*externalSymlink, error) {
+	// Give up on link cycles instead of recursing until the stack overflows.
+	if hops > 255 {
+		return nil, fmt.Errorf("too many levels of symbolic links resolving %q", path)
+	}
+
 	// Read the symlink file to find the destination.
 	target, err := os.Readlink(path)
 	if err != nil {
@@ -375,7 +390,7 @@ func (p *Packer) resolveExternalLink(root string, path string) (*externalSymlink
 
 	// Recurse if the symlink resolves to another symlink
 	if info.Mode()&os.ModeSymlink != 0 {
-		return p.resolveExternalLink(root, absTarget)
+		return p.resolveExternalLink(root, absTarget, hops+1)
 	}
 
 	return &externalSymlink{
